@@ -10,13 +10,21 @@ var vNames = []string{ENCR_AES_CBC_128, ENCR_AES_CBC_192, ENCR_AES_CBC_256}
 // arbitrary key of the size selected by Param(0).
 func HDecryptArbitrary() {
 	t := StrToType(vNames[vr.Param(0)])
-	c, err := t.NewCrypto(vr.Bytes(t.GetKeyLength()))
+	key := vr.Bytes(t.GetKeyLength())
+	c, err := t.NewCrypto(key)
 	vr.Assert("c10.newcrypto.noerr", err == nil)
 	if err != nil {
 		return
 	}
 	ct := vr.Input(vr.Param(1))
 	n := len(ct)
+	if vr.Native() {
+		// replay: the counterexample fixes what the (uninterpreted) block decryption returns; build the
+		// ciphertext that really decrypts to those octets under this key and IV
+		if p := vr.ModelPlaintext(0); p != nil && n >= 32 && len(p) == n-16 {
+			ct = append(append([]byte{}, ct[:16]...), vSpecEncrypt(key, ct[:16], p)...)
+		}
+	}
 	pt, err := c.Decrypt(ct)
 	if err != nil {
 		vr.Cover("c10.decrypt.rejected")
@@ -26,4 +34,19 @@ func HDecryptArbitrary() {
 	// an accepted ciphertext has an IV, at least one block, whole blocks, and a possible pad length
 	vr.Assert("c10.decrypt.accept-shape", n >= 32 && n%16 == 0)
 	vr.Assert("c10.decrypt.accept-len", len(pt) <= n-16-1 && len(pt) >= n-16-256)
+}
+
+func vSpecEncrypt(key, iv, pt []byte) []byte {
+	var out []byte
+	prev := iv
+	for i := 0; i+16 <= len(pt); i += 16 {
+		x := make([]byte, 16)
+		for j := 0; j < 16; j++ {
+			x[j] = pt[i+j] ^ prev[j]
+		}
+		c := vr.AESEnc(key, x)
+		out = append(out, c...)
+		prev = c
+	}
+	return out
 }
